@@ -351,9 +351,9 @@ class Tensor:
         return Tensor(self.shape, lambda idx: -self.fn(idx))
 
     def __pow__(self, k):
-        if isinstance(k, int) and k >= 0:
-            r = self * 0 + 1
-            for _ in range(k):
+        if isinstance(k, int) and k >= 1:
+            r = self
+            for _ in range(k - 1):
                 r = r * self
             return r
         raise EngineLimit("tensor power")
